@@ -898,6 +898,90 @@ def enumerate_cases(quick: bool) -> tuple[list, dict]:
     return list(seen.values()), counts
 
 
+FILTER_SIZES = [(2, 2), (4, 2), (2, 4), (8, 8), (16, 4), (1, 4), (4, 1), (32, 32)]
+CORNER = {'UPPER_LEFT': (0, 0), 'UPPER_RIGHT': (1, 0), 'LOWER_LEFT': (0, 1), 'LOWER_RIGHT': (1, 1)}
+
+
+def check_filters(acc: core.Acc, w: int, h: int) -> None:
+    """compute_mipmaps(filter) for every FilterMode: each generated level against the documented rule (the named corner
+    of the 2x2 parent block / the mean), then the generated pyramid stored and read back unchanged."""
+    from srctools.vtf import FilterMode
+    src = bytes(((x * 37 + y * 101 + c * 53) % 251) + (4 if c == 3 else 0) for y in range(h) for x in range(w) for c in range(4))
+    for mode in FilterMode:            # aliases (NEAREST, AVERAGE) are the same members
+        acc.evaluations += 1
+        acc.nontrivial += 1
+        case = {'filter': mode.name, 'w': w, 'h': h}
+        try:
+            vtf = VTF(w, h, fmt=ImageFormats.RGBA8888, thumb_fmt=ImageFormats.NONE)
+            vtf.get().copy_from(src, ImageFormats.RGBA8888)
+            vtf.clear_mipmaps(after=0)
+            vtf.compute_mipmaps(mode)
+            levels = {}
+            for m in range(vtf.mipmap_count):
+                fr = vtf.get(mipmap=m)
+                levels[m] = (fr.width, fr.height, frame_bytes(fr))
+        except Exception as exc:  # noqa: BLE001
+            acc.fail('regen_error', case, f'{w}x{h} compute_mipmaps({mode.name}) raised {type(exc).__name__}: {exc}', exc=type(exc).__name__)
+            continue
+        for m in range(1, len(levels)):
+            pw, ph, pp = levels[m - 1]
+            cw, ch, cp = levels[m]
+            if mode.name in ('BILINEAR', 'AVERAGE'):
+                msg = check_mip_mean(pp, pw, ph, cp, cw, ch)
+            else:
+                ox, oy = CORNER['UPPER_LEFT' if mode.name == 'NEAREST' else mode.name]
+                msg = None
+                for y in range(ch):
+                    for x in range(cw):
+                        sx, sy = min(2 * x + ox, pw - 1), min(2 * y + oy, ph - 1)
+                        want = pp[4 * (sy * pw + sx):4 * (sy * pw + sx) + 4]
+                        got = cp[4 * (y * cw + x):4 * (y * cw + x) + 4]
+                        if got != want and msg is None:
+                            msg = f'pixel ({x}, {y}) is {tuple(got)}, the {mode.name} pixel of its parent block is {tuple(want)}'
+            if msg:
+                acc.fail('mip_filter', case, f'{w}x{h} compute_mipmaps({mode.name}) level {m}: {msg}', mode=mode.name)
+                break
+        else:
+            try:
+                buf = io.BytesIO()
+                vtf.save(buf)
+                rd = VTF.read(io.BytesIO(buf.getvalue()))
+                for m in range(min(rd.mipmap_count, len(levels))):
+                    if frame_bytes(rd.get(mipmap=m)) != levels[m][2]:
+                        acc.fail('pixels', case, f'{w}x{h} pyramid generated with {mode.name}: level {m} read back differently', fmt='RGBA8888', plane='main', exact8=True)
+                        break
+            except Exception as exc:  # noqa: BLE001
+                acc.fail('read_error', case, f'{w}x{h} pyramid generated with {mode.name}: save/read raised {type(exc).__name__}: {exc}', exc=type(exc).__name__)
+
+
+def check_fill(acc: core.Acc) -> None:
+    """Frame.fill: frames filled with the same colour and size are independent of each other and of later fills."""
+    acc.evaluations += 1
+    acc.nontrivial += 1
+    case = {'fill': True}
+    vtf = VTF(8, 8, frames=3, fmt=ImageFormats.RGBA8888, thumb_fmt=ImageFormats.NONE)
+    frames = [vtf.get(frame=i) for i in range(3)]
+    frames[0].fill(40, 80, 120, 255)
+    frames[1].fill(40, 80, 120, 255)
+    frames[0][3, 5] = (255, 1, 2, 3)
+    frames[2].fill(40, 80, 120, 255)
+    want1 = bytes([40, 80, 120, 255]) * 64
+    want0 = bytearray(want1)
+    want0[4 * (5 * 8 + 3):4 * (5 * 8 + 3) + 4] = bytes([255, 1, 2, 3])
+    for i, want in ((0, bytes(want0)), (1, want1), (2, want1)):
+        if frame_bytes(frames[i]) != want:
+            acc.fail('fill_shared', case, f'three 8x8 frames filled with one colour, pixel (3, 5) of frame 0 then edited: frame {i} holds '
+                     f'{tuple(frame_bytes(frames[i])[4 * 43:4 * 43 + 4])} at (3, 5)')
+            return
+    buf = io.BytesIO()
+    vtf.save(buf)
+    rd = VTF.read(io.BytesIO(buf.getvalue()))
+    for i, want in ((0, bytes(want0)), (1, want1), (2, want1)):
+        if frame_bytes(rd.get(frame=i)) != want:
+            acc.fail('pixels', case, f'filled frames: frame {i} read back differently', fmt='RGBA8888', plane='main', exact8=True)
+            return
+
+
 def weight(m: dict) -> int:
     cfg = full(m)
     n = cfg['w'] * cfg['h'] * cfg['frames'] * (7 if cfg['cube'] else cfg['depth'])
@@ -908,7 +992,12 @@ def weight(m: dict) -> int:
 def shard(cases: list) -> core.Acc:
     acc = core.Acc()
     for m in cases:
-        check_case(acc, m)
+        if 'filter_size' in m:
+            check_filters(acc, *m['filter_size'])
+        elif 'fill' in m:
+            check_fill(acc)
+        else:
+            check_case(acc, m)
     return acc
 
 
@@ -922,6 +1011,7 @@ def run(ctx: core.Ctx) -> None:
     shards = shards[k:] + shards[:k]
     for i in range(6):
         ctx.acc.sample(shards[(i * 7) % len(shards)][-1])
+    shards.append([{'filter_size': list(sz)} for sz in FILTER_SIZES] + [{'fill': True}])
     core.par_map(shard, shards, ctx.acc)
     for fam, n in sorted(counts.items()):
         ctx.acc.count('cases_' + fam, n)
@@ -930,7 +1020,7 @@ def run(ctx: core.Ctx) -> None:
         f'configurations = records over {len(BASE)} dimensions (w, h in {SIZES}; frames; depth; cubemap; version 7.2-7.5; '
         f'{len(WRITABLE)} writable main formats; NONE + {len(WRITABLE)} thumbnail formats; {len(RES)} resource sets; {len(SHEETS)} sheet sets x '
         f'sheet version 0/1; each of the 31 non-ENVMAP flag bits; mips generated/explicit; pixel phase; reflectivity; bump scale; '
-        f'first frame; save(version=) override; clear_mipmaps(after)+compute_mipmaps on the re-read file).  Enumerated: every record deviating from the base '
+        f'first frame; save(version=) override; clear_mipmaps(after)+compute_mipmaps on the re-read file); compute_mipmaps(filter) for every FilterMode on 8 sizes against the documented corner / mean rule; Frame.fill independence.  Enumerated: every record deviating from the base '
         f'(4x4, 1 frame, RGBA8888, no thumbnail, 7.5) in <= {d} dimensions, each to every alternative value, and in <= {d + 2} dimensions '
         f'over a reduced menu of boundary values ({sum(len(v) for v in ALTS_DEEP.values())} values in {len(ALTS_DEEP)} dimensions)'
         + ('' if ctx.quick else f', and in <= 4 dimensions over a medium menu ({sum(len(v) for v in ALTS_MID.values())} values in {len(ALTS_MID)} dimensions)') +
@@ -950,5 +1040,11 @@ def run(ctx: core.Ctx) -> None:
 
 def replay(case: dict) -> list:
     acc = core.Acc()
+    if 'filter' in case:
+        check_filters(acc, case['w'], case['h'])
+        return [f for f in acc.all_failures() if f.case.get('filter') == case['filter']]
+    if 'fill' in case:
+        check_fill(acc)
+        return acc.all_failures()
     check_case(acc, case)
     return acc.all_failures()
